@@ -25,7 +25,7 @@ func init() {
 		}}},
 		Run: run,
 		Floors: func(t string) map[string]int64 {
-			m := map[string]int64{"partner.same_datum": 10000, "partner.wgs84_area_of_use": 2000, "partner.wgs84_small_towgs84": 1000, "partner.geographic_without_datum": 1000, "position.conic_near_pole": 300, "closure_pair": 5000, "ell.sphere": 60, "units.non_metre": 1000, "pm.set": 500}
+			m := map[string]int64{"partner.same_datum": 10000, "partner.wgs84_area_of_use": 2000, "partner.wgs84_small_towgs84": 1000, "partner.geographic_without_datum": 1000, "position.conic_near_pole": 300, "position.tm_hair_off_equator": 300, "closure_pair": 5000, "ell.sphere": 60, "units.non_metre": 1000, "pm.set": 500}
 			for _, p := range []string{"longlat", "merc", "lcc", "aea", "eqdc", "tmerc", "utm", "krovak"} {
 				m["proj."+p] = 300
 			}
@@ -96,6 +96,9 @@ func run(c *core.Ctx, idx int) {
 		// documented inverse of a 7-parameter shift is first order, so the WGS84 hop between a
 		// system and the geographic system on its own datum is the identity only to O(r^2 R)
 		d = crsgen.Gen(r, &crsgen.Options{SmallTowgs: true, NoBothDatum: true})
+		if (d.Proj == "tmerc" || d.Proj == "utm") && d.DatKind != "named" && r.Chance(0.2) {
+			d.Ell, d.EllKind = " +ellps=sphere", "sphere" // the spherical forms have their own code
+		}
 		geo = d.Geographic().String()
 		partner = "same_datum"
 	case mode <= 7:
@@ -169,6 +172,10 @@ func run(c *core.Ctx, idx int) {
 			}
 		} else {
 			lon, lat = d.Pos(r)
+			if (d.Proj == "tmerc" || d.Proj == "utm") && d.LatMin <= 0 && d.LatMax >= 0 && r.Chance(0.12) {
+				lat = math.Pow(10, r.Range(-9, -5)) * float64(1-2*r.Intn(2)) // centimetres from the equator
+				c.Count("position.tm_hair_off_equator")
+			}
 			if (d.Proj == "lcc" || d.Proj == "aea" || d.Proj == "eqdc") && r.Chance(0.06) {
 				// the cone-side latitudes reach the pole: co-latitudes from 3 deg down to 0.002 deg.
 				// (Closer than that the inverse of the equal-area and equidistant conics is
